@@ -1,4 +1,4 @@
-from inspect import isfunction, signature
+from inspect import signature
 from collections.abc import Iterable
 
 from .datastream_processor import DataStreamProcessor
@@ -35,7 +35,7 @@ class Flow:
                 ds = link._chain(ds)
             elif isinstance(link, DataStreamProcessor):
                 ds = link(ds, position=position)
-            elif isfunction(link):
+            elif callable(link):
                 sig = signature(link)
                 params = list(sig.parameters)
                 if len(params) == 1:
@@ -51,5 +51,7 @@ class Flow:
                     assert False, 'Failed to parse function signature {!r}'.format(params)
             elif isinstance(link, Iterable):
                 ds = iterable_loader(link)(ds, position=position)
+            else:
+                assert False, 'Failed to interpret {!r} as a flow step'.format(link)
 
         return ds
